@@ -1066,6 +1066,23 @@ func (g *FuncGen) execStringConv(x *ssa.Convert, st *State) {
 			return
 		}
 	}
+	if sl, ok := to.Underlying().(*types.Slice); ok && isStringType(from) && !g.w.useStrings {
+		// []rune(s) for an all-ASCII string (obligation model.ascii): one rune per byte
+		if b, ok := sl.Elem().Underlying().(*types.Basic); ok && b.Kind() == types.Int32 {
+			g.check(st, "model.ascii", fmt.Sprintf("(forall ((i Int)) (! (=> (and (<= 0 i) (< i (strlen %s))) (< %s 128)) :pattern (%s)))", v, g.strByte(v, "i"), g.strByte(v, "i")), "[]rune(s) is modelled bytewise: every byte of s must be ASCII", g.posOf(x))
+			ref := g.allocRef(st, "runes:"+x.Name())
+			em := g.elemMap(sl.Elem())
+			cur := g.heapGet(st.heap, em.Name, em.Sort)
+			nv := g.freshConst("H:"+em.Name, em.Sort)
+			arr := g.freshConst("runes.arr", "(Array Int Int)")
+			g.assert(fmt.Sprintf("(forall ((i Int)) (! (=> (and (<= 0 i) (< i (strlen %s))) (= (select %s i) %s)) :pattern ((select %s i))))", v, arr, g.strByte(v, "i"), arr))
+			g.assert(fmt.Sprintf("(= %s (store %s %s %s))", nv, cur, ref, arr))
+			st.heap = g.heapSet(st.heap, em.Name, nv)
+			g.define(x, fmt.Sprintf("(mk_slice %s 0 (strlen %s) (strlen %s))", ref, v, v))
+			g.fresh[fmt.Sprintf("(s_arr %s)", g.val(x))] = true
+			return
+		}
+	}
 	if sl, ok := from.Underlying().(*types.Slice); ok && isStringType(to) {
 		if b, ok := sl.Elem().Underlying().(*types.Basic); ok && b.Kind() == types.Uint8 {
 			// string(bytes): a string with the same length and bytes
